@@ -1096,7 +1096,15 @@ Proof.
         destruct (prefix_known _ _ Eo) as (Hk & Hl).
         eapply Rx_trans; [exact Hc|exact R1|]. apply Rx_emit0; [exact (Rx_ok _ _ R1)|exact Hk|exact Hl].
       * (* EInfix *)
-        rewrite compile_infix_eq in H.
+        destruct (tokty_eq_dec op TPeriod) as [->|Hne].
+        { (* `l.r`: code of l, one constant push, OpIndex *)
+          destruct (compile_dot_inv _ _ _ _ _ H) as (c1 & name & E1 & En & ->).
+          pose proof (IHe e1 c c1 Hc E1) as R1.
+          pose proof (Rx_const (VStr name) c1 (Rx_ok _ _ R1)) as R2.
+          eapply Rx_trans; [exact Hc|exact R1|].
+          eapply Rx_trans; [exact (Rx_ok _ _ R1)|exact R2|].
+          apply Rx_emit0; [exact (Rx_ok _ _ R2)|reflexivity|reflexivity]. }
+        rewrite compile_infix_eq in H by exact Hne.
         destruct (compile_expr f e1 c) as [[] c1| | |] eqn:E1; try discriminate. cbn [cbind] in H.
         destruct (compile_expr f e2 c1) as [[] c2| | |] eqn:E2; try discriminate. cbn [cbind] in H.
         pose proof (IHe e1 c c1 Hc E1) as R1.
